@@ -304,6 +304,35 @@ def run(ctx):
                   message=f"{mf.name}: for_update=True does not reach with_for_update() before the query runs",
                   how="true branch of `if for_update` passes with_for_update before execution")
 
+    # ---------------------------------------------------------------- R03.7 one critical section per call
+    ctx.rule("R03.7", "InMemoryStorage / JournalStorage / GrpcClientCache: each public method interacts with shared state in exactly one "
+             "critical section (no read in one region or self-locking call and write in another: lost updates)")
+    n_single = 0
+    for info in (inm, jr, gc):
+        acq = info.acquires()
+        for mname, f in sorted(info.methods.items()):
+            if mname.startswith("_") or mname in info.exempt:
+                continue
+            pm = parent_map(f.node)
+            sections = []
+            for n in own_nodes(f.node):
+                if isinstance(n, ast.With) and any(self_attr(i.context_expr) == info.lock for i in n.items):
+                    # outermost only
+                    if not any(isinstance(a, ast.With) and any(self_attr(i.context_expr) == info.lock for i in a.items) for a in ancestors(n, pm)):
+                        sections.append(n)
+                if isinstance(n, ast.Call) and self_attr(n.func) in info.methods and acq.get(self_attr(n.func)):
+                    if info.lock not in info.regions[mname].at(n):
+                        sections.append(n)
+            if not sections:
+                continue
+            n_single += 1
+            ctx.check(len(sections) == 1, "R03.7", f.short, "single-critical-section",
+                      message=f"{info.cls.name}.{mname} touches shared state in {len(sections)} separate critical sections "
+                              f"(lines {[getattr(x, 'lineno', 0) for x in sections]}): another thread can write between them, so a "
+                              f"read-modify-write is not atomic (lost update / stale check)",
+                      how="one `with <lock>` region (or one self-locking call) per public method", where=where(f, sections[-1]))
+    ctx.floor("R03.7", "public_methods_with_sections", n_single, 43)
+
     # ---------------------------------------------------------------- R03.6 uniqueness constraints
     ctx.rule("R03.6", "RDB: the uniqueness the contract relies on under concurrent writers is declared in the schema "
              "(study name once; one row per (owner, key) so that racing writers cannot both insert)")
